@@ -189,6 +189,9 @@ def k_seqlogos(ctx, seqs):
     ctx.nontriv(["lo", seqs])
     ctx.sample("seqlogos", {"seqs": seqs[:6]})
     fig, ax = plt.subplots()
+    if len(seqs) % 3 == 0:
+        ctx.count("plots_on_implicit_axes")
+        ax = None                 # seqlogos makes its own figure
     out = ctx.call(pp.seqlogos, list(seqs), ax=ax)
     try:
         if not out.ok:
@@ -226,7 +229,9 @@ def k_rankfrequency(ctx, data, normalize_x, normalize_y, scalex, scaley, log_x=T
     want_x = [v * scalex for v in xs]
     want_y = [scaley * i / (n if normalize_y else 1) for i in range(n)]
     fig, ax = plt.subplots()
-    out = ctx.call(pp.rankfrequency, np.array(vals), ax=ax, normalize_x=normalize_x, normalize_y=normalize_y, scalex=scalex, scaley=scaley,
+    if len(vals) % 3 == 0:
+        ctx.count("plots_on_implicit_axes")
+    out = ctx.call(pp.rankfrequency, np.array(vals), ax=(None if len(vals) % 3 == 0 else ax), normalize_x=normalize_x, normalize_y=normalize_y, scalex=scalex, scaley=scaley,
                    log_x=log_x, log_y=log_y)
     try:
         key = f"rankfrequency:nx{int(normalize_x)}ny{int(normalize_y)}"
@@ -310,7 +315,9 @@ def k_density(ctx, pts, sort):
     fig, ax = plt.subplots()
     x = [p[0] for p in pts]
     y = [p[1] for p in pts]
-    out = ctx.call(pp.density_scatter, x, y, ax=ax, discrete=True, sort=sort)
+    if len(pts) % 3 == 0:
+        ctx.count("plots_on_implicit_axes")          # ax=None: the current axes, which are the ones just created
+    out = ctx.call(pp.density_scatter, x, y, ax=(None if len(pts) % 3 == 0 else ax), discrete=True, sort=sort)
     try:
         if not out.ok:
             ctx.violation("density_scatter:discrete:raised", "raised", out.describe(), None)
@@ -364,7 +371,7 @@ def k_clustermap(ctx, rows, single=None, index=None, meta=False, method="average
     tot = low + up if single is None else low
     if meta:
         ctx.count("clustermap_meta")
-        kw["meta_columns"] = ["donor", "epi"]
+        kw["meta_columns"] = {"donor": "Donor", "epi": "Epitope"} if n % 2 else ["donor", "epi"]
     cond = [tot[i, j] for i in range(n) for j in range(i + 1, n)]
     wl = hc.linkage(np.array(cond), **kw["linkage_kws"])
     wc = hc.fcluster(wl, **kw["cluster_kws"])
@@ -454,6 +461,10 @@ def generate(tier, seed):
     yield "regex", {"seqs": ["CA-SF", "CAWSF", "C-TSY"]}, True
     yield "consensus", {"seqs": ["CASSF", "CAWSF", "CATSY", "CAWTY"]}, True
     yield "seqlogos", {"seqs": ["CASSF", "CAWSF", "CATSY", "CAWTY"]}, True
+    # columns where most sequences show a gap (still one residue in every column)
+    yield "consensus", {"seqs": ["C-SF", "C-SF", "CASF", "C-TF"]}, True
+    yield "consensus", {"seqs": ["-A-", "CA-", "-AW", "-C-", "-A-"]}, True
+    yield "regex", {"seqs": ["C-SF", "C-SF", "CASF", "C-TF"]}, True
     for i in range(500 * TS if thorough else 40):
         L = rng.randint(1, 9)
         n = rng.randint(1, 12)
@@ -463,6 +474,13 @@ def generate(tier, seed):
         yield "regex", {"seqs": seqs}, i < 15
         if not gaps or i % 8 == 0:
             yield "consensus", {"seqs": seqs}, i < 15
+        if i % 8 == 4 and n > 2 and L > 1:
+            j = rng.randrange(L)              # a gap-rich column: all but one sequence show a gap there
+            keep = rng.randrange(n)
+            heavy = [t if r == keep or t[j] == "-" else t[:j] + "-" + t[j + 1:] for r, t in enumerate(seqs)]
+            if all(any(t[c] != "-" for t in heavy) for c in range(L)):
+                yield "consensus", {"seqs": heavy}, i < 15
+                yield "regex", {"seqs": heavy}, i < 15
         if i % 5 == 1 and not gaps:
             yield "seqlogos", {"seqs": seqs}, i < 12
     for i in range(300 * TS if thorough else 30):
